@@ -102,6 +102,8 @@ structure St' where
   prev : St := {}
   /-- was `bookInvB` true of the previous implementation state -/
   prevInv : Bool := true
+  /-- judge the bookkeeping invariant (C32 histories); C33 histories switch it off -/
+  book : Bool := true
 
 def failId : GuardFail → String
   | .reregister => "C32-reregister"
@@ -135,7 +137,7 @@ def finish (st : St') (out : Out) (implAnswer implDump : String) : St' × String
     let modelLine := s!"{out.modelAnswer} | {dumpSt out.model}"
     let implLine := s!"{implAnswer} | {dumpSt impl}"
     if !out.judge.isEmpty then (st2, s!"JUDGE {"; ".intercalate out.judge}")
-    else if st.prevInv && !inv then
+    else if st.book && st.prevInv && !inv then
       match out.fail with
       | some f =>
         (st2, s!"KNOWN[{out.failTag.getD (failId f)}] bookkeeping invariant broken by a step outside the guard ({repr f})")
@@ -184,6 +186,8 @@ def step (st : St') (line : String) : St' × String :=
   let (op, res?) := splitCase line
   match words op with
   | ["new", "c", t] => ({ timeout := t.toNat?.getD 15000, prev := { timeout := t.toNat?.getD 15000 } }, "")
+  | ["new", "c", t, "nobook"] =>
+    ({ timeout := t.toNat?.getD 15000, prev := { timeout := t.toNat?.getD 15000 }, book := false }, "")
   | [] => (st, "")
   | ws =>
     let res := res?.getD ""
